@@ -63,7 +63,7 @@ def run(ck, tier):
         c04._byte_lengths(c05._Sub(ck, "R-C01-units", ""), p)
     except Exception as e:
         ck.refuted("R-C01-units", "internal:%s" % type(e).__name__, "", "rule could not run: %s" % e)
-    for sub in (_consumers, _lexer, _loops, _spans, _precond, _total):
+    for sub in (_consumers, _lexer, _loops, _spans, _precond, _total, _twin_scans):
         try:
             sub(ck, p)
         except Exception as e:      # a rule that cannot run must not vouch
@@ -707,3 +707,141 @@ def _total(ck, p):
         ck.refuted(rule, "<Vec@VecExt>::remove_indices", f.loc(bad[0][0]), "the helper contains %s: a queue with a repeated or out-of-order index (which Markdown::remove_hidden_wikilink_tokens produces for a rejected wikilink with two pipes, e.g. `[[||]]`) makes it panic" % ", ".join(sorted({w for _, w in bad})))
     else:
         ck.proved(rule, "<Vec@VecExt>::remove_indices", f.span, "no panicking operation among the %d terminators of the helper and its closures" % n_ops)
+
+
+def _twin_scans(ck, p):
+    """Span::new(first position from the front, len - first position from the back): start <= end holds because both
+    scans skip the SAME characters (an all-skipped text gives start = end = len).  Different predicates break it."""
+    import json as _json
+    rule = "R-C01-span"
+    n = 0
+    for f in sorted(p.fns.values(), key=lambda f: f.name):
+        if not SCOPE.match(f.name) or f.get("kind") in ("Closure", "Promoted"):
+            continue
+        spans = [(bi, t) for bi, t in f.calls() if norm(t["f"].get("inst") or "") == "harper_core::span::{impl}::new"]
+        poss = [(bi, t) for bi, t in f.calls() if method(t) in ("position", "rposition")]
+        if not spans or len(poss) != 2:
+            continue
+        from ..prov import Prov, flatten
+        pv = Prov(f)
+        # both positions feed the same Span::new, one per operand
+        feeds = []
+        for sb, st in spans:
+            for ai, a in enumerate(st["args"][:2]):
+                for o in flatten(pv.trace_operand(a)):
+                    pass
+            roots = [set(o[1] for o in _call_roots(f, pv, a) if o[0] == "call") for a in st["args"][:2]]
+            if poss[0][0] in roots[0] | roots[1] and poss[1][0] in roots[0] | roots[1] and not ({poss[0][0], poss[1][0]} <= roots[0]) and not ({poss[0][0], poss[1][0]} <= roots[1]):
+                feeds.append((sb, st))
+        if not feeds:
+            continue
+        clos = []
+        for pb, pt in poss:
+            for o in pv.trace_operand(pt["args"][1]):
+                if o[0] == "agg" and o[1] == "closure":
+                    c = p.fns.get(o[2])
+                    if c is not None:
+                        clos.append(c)
+        if len(clos) != 2:
+            continue
+        n += 1
+        ck.saw(f)
+
+        def strip(o):
+            if isinstance(o, dict):
+                return {k: strip(v) for k, v in sorted(o.items()) if k not in ("ln", "cl", "exp", "ty", "span", "loc")}
+            if isinstance(o, list):
+                return [strip(x) for x in o]
+            return o
+
+        def shape(c):
+            out = []
+            for b in c.blocks:
+                if b["cleanup"]:
+                    continue
+                out.append([strip(sx) for sx in b["s"] if sx["k"] == "assign"])
+                t = b["t"]
+                out.append([t["k"], (t.get("f") or {}).get("inst") or (t.get("f") or {}).get("def") or "", strip(t.get("args", [])), strip(t.get("targets", "")), strip(t.get("discr", ""))])
+            return _json.dumps(out, sort_keys=True).replace(c.name, "C")
+        same = shape(clos[0]) == shape(clos[1])
+        key = "%s:twin-scans" % keyname(p, f)
+        if same:
+            ck.proved(rule, key, f.loc(feeds[0][1]["ln"]), "the forward and the backward scan that bound the span use the same predicate (identical closure bodies): start <= end")
+            continue
+        # different text: compare the two predicates on every character class either of them can distinguish
+        from ..interp import Interp, Stuck
+        consts = set()
+
+        def collect(c, seen):
+            if c.name in seen:
+                return
+            seen.add(c.name)
+            for b in c.blocks:
+                def walk(o):
+                    if isinstance(o, dict):
+                        if "int" in o and str(o.get("txt", "")).startswith("'"):
+                            consts.add(int(o["int"]))
+                        for v in o.values():
+                            walk(v)
+                    elif isinstance(o, list):
+                        for v in o:
+                            walk(v)
+                walk(b["s"])
+                t = b["t"]
+                if t["k"] == "switch":
+                    for v, _ in t["targets"]:
+                        if 1 < int(v) < 0x110000:
+                            consts.add(int(v))
+                if t["k"] == "call":
+                    g = p.fns.get(inst_of(t)) or p.fns.get(norm(inst_of(t)))
+                    if g is not None:
+                        collect(g, seen)
+        for c in clos:
+            collect(c, set())
+        classes = set(consts)
+        for v in list(consts):
+            classes.update((v - 1, v + 1))
+        classes.update(ord(x) for x in " \tazAZ09_.\u00e9\u3000")
+        classes = sorted(v for v in classes if 0 < v < 0x110000 and not 0xD800 <= v < 0xE000)
+
+        def ev(c, ch, depth=0, args=None):
+            if depth > 6:
+                raise Stuck("helper nesting")
+            def call(t, a):
+                inst = norm(inst_of(t))
+                g = p.fns.get(inst_of(t)) or p.fns.get(inst)
+                if last(inst) == "is_whitespace" and a and a[0][0] == "char":
+                    return ("bool", chr(a[0][1]).isspace())
+                if g is not None and a and all(x[0] in ("char", "bool", "int") for x in a):
+                    return ev(g, None, depth + 1, a)
+                raise Stuck("call to %s" % inst)
+            env = {}
+            if args is None:
+                env[2] = ("char", ch)
+            else:
+                for i, x in enumerate(args):
+                    env[i + 1] = x
+            r, _ = Interp(c, max_steps=400).run(env, hooks={"call": call})
+            if r[0] != "bool":
+                raise Stuck("predicate result is %s" % (r,))
+            return r
+        diff = None
+        try:
+            for ch in classes:
+                r0, r1 = ev(clos[0], ch), ev(clos[1], ch)
+                if r0 != r1:
+                    diff = (ch, r0[1], r1[1])
+                    break
+        except Stuck as e:
+            ck.undecided(rule, key, f.loc(feeds[0][1]["ln"]), "the forward and backward scans use differently written predicates and one of them is beyond the evaluator (%s)" % e)
+            continue
+        if diff is None:
+            ck.proved(rule, key, f.loc(feeds[0][1]["ln"]), "the forward and backward scans use differently written predicates that agree on all %d character classes either can distinguish: start <= end" % len(classes))
+        else:
+            ck.refuted(rule, key, f.loc(feeds[0][1]["ln"]), "the span runs from the first character the forward scan keeps to the last character the backward scan keeps, but the scans disagree on %r (forward keeps it: %s, backward keeps it: %s): a text whose only kept character under one scan is %r gives start > end and Span::new panics" % (chr(diff[0]), diff[1], diff[2], chr(diff[0])))
+    ck.extra["twin_scan_sites"] = n
+
+
+def _call_roots(f, pv, op, depth=0, seen=None):
+    from ..common import arg_roots
+    return arg_roots(f, pv, op)
